@@ -47,7 +47,7 @@ func init() {
 			"offset writer and zlib writer are built on that tee; footer writes the hasher's Sum; (header-count) the object count written in the header is the length of the slice that is then iterated; " +
 			"(base-before-offset) in entry, a delta's base is written before the delta's own offset is recorded; (request-deduplicated) the selector loads the requested hashes through a list built under a not-yet-seen map test " +
 			"(or a loop that skips seen hashes), so a hash requested twice yields one entry; (metadata-saved-before-clean) every CleanOriginal on an ObjectToPack is preceded on all paths by SaveOriginalMetadata or lies on the edge where the object is a stored " +
-			"plumbing.DeltaObject, so Hash/Type/Size stay defined for REF_DELTA headers; (delta-base-same-type) every attempt to deltify a target against a base is reachable only where the two have the same type (a delta takes its base's type when the pack is read). Not decided: the rest of delta selection, content equality, acceptance by git index-pack.",
+			"plumbing.DeltaObject, so Hash/Type/Size stay defined for REF_DELTA headers; (delta-base-same-type) every attempt to deltify a target against a base is reachable only where the two have the same type (a delta takes its base's type when the pack is read); (copy-flag-bits-agree, shared with C06) the command bits encodeCopyOperation can set are exactly the bits the decoders consult, so no offset or size byte of a copy instruction is dropped. Not decided: the rest of delta selection, content equality, acceptance by git index-pack.",
 		Assumptions: []string{},
 		Run:         runC07,
 	})
@@ -455,6 +455,9 @@ func runC17(c *Ctx) {
 
 func runC07(c *Ctx) {
 	p := c.P
+	// the copy instructions the encoder writes must announce every offset/size byte the decoders read (shared with C06):
+	// a pack whose deltas copy from beyond 2^24 is otherwise well-formed and rebuilds other objects than were requested
+	checkCopyFlagBits(c)
 	pk := p.Pkg(pfShort)
 	if pk == nil {
 		c.Unresolved("pack-hasher-tee", "package "+pfShort, 0, "not loaded")
